@@ -84,10 +84,12 @@ class Obligation:
 HARNESS_RE = re.compile(r"^// @harness\s+(.*)$")
 INJECT_RE = re.compile(r"^// @inject\s+(\S+)(?:\s+as\s+(\w+))?")
 NEEDS_RE = re.compile(r"^// @needs\s+(.*)$")
+APPEND_RE = re.compile(r"^// @append\s+(\S+):\s*(.*)$")
 
 
 @dataclass
 class KHarness:
+    full: str                 # fully qualified harness path (used with --exact)
     name: str
     file: str                 # kani/<file>.rs
     props: list
@@ -111,7 +113,7 @@ def load_kani_inventory() -> tuple[dict, dict]:
     """Scan /verif/kani/*.rs.  Returns (harness name -> KHarness, file -> meta{inject,modname,needs})."""
     harnesses, files = {}, {}
     for p in sorted((VERIF / "kani").glob("*.rs")):
-        meta = {"inject": None, "modname": None, "needs": []}
+        meta = {"inject": None, "modname": None, "needs": [], "append": []}
         lines = p.read_text().splitlines()
         pending = None
         for i, line in enumerate(lines):
@@ -122,6 +124,9 @@ def load_kani_inventory() -> tuple[dict, dict]:
             m = NEEDS_RE.match(line)
             if m:
                 meta["needs"] += m.group(1).split()
+            m = APPEND_RE.match(line)
+            if m:
+                meta["append"].append((m.group(1), m.group(2)))
             m = HARNESS_RE.match(line)
             if m:
                 pending = _parse_kv(m.group(1))
@@ -137,13 +142,18 @@ def load_kani_inventory() -> tuple[dict, dict]:
                             break
                         clauses += re.findall(r'assert!\(.*?,\s*"([^"]+)"\s*\)', l2)
                     harnesses[name] = KHarness(
-                        name=name, file=p.name, props=pending.get("property", "").split(","),
+                        full="?", name=name, file=p.name, props=pending.get("property", "").split(","),
                         fn=pending.get("fn", "?"), kind=pending.get("kind", "proof"),
                         tier=pending.get("tier", "quick"), cfg=pending.get("cfg", "debug"),
                         domain=pending.get("domain", ""), timeout=int(pending.get("timeout", "300")),
                         clauses=clauses)
                     pending = None
         files[p.name] = meta
+    for h in harnesses.values():
+        meta = files[h.file]
+        mp = (meta["inject"] or "").removeprefix("src/").removesuffix(".rs").removesuffix("/mod")
+        mp = "" if mp == "lib" else mp.replace("/", "::")
+        h.full = "::".join(x for x in (mp, meta["modname"], h.name) if x)
     return harnesses, files
 
 
@@ -179,6 +189,10 @@ def inject_kani(scratch: Scratch, files_meta: dict, file_names: list, thorough: 
         with open(target, "a") as f:
             f.write(f'\n#[cfg(kani)] #[path = "{kdir / fn}"] pub(crate) mod {meta["modname"]};\n')
         injected.append(f'{meta["inject"]} += mod {meta["modname"]} ({fn})')
+        for tgt, line in meta["append"]:
+            with open(scratch.repo / tgt, "a") as f:
+                f.write(f"\n#[cfg(kani)] {line}\n")
+            injected.append(f"{tgt} += #[cfg(kani)] {line}")
     return injected
 
 
@@ -277,8 +291,8 @@ def run_kani(scratch: Scratch, cfg: str, hs: list, jobs: int | None = None) -> t
     cmd = ["cargo", "kani", "--lib", "-Z", "stubbing", "-Z", "function-contracts", "-Z", "unstable-options",
            "--harness-timeout", f"{tmo}s", "--output-format", "terse", "-j", str(jobs or min(NCPU, max(1, len(hs))))]
     for h in hs:
-        cmd += ["--harness", h.name]
-    cmd += ["--exact"] if False else []
+        cmd += ["--harness", h.full]
+    cmd += ["--exact"]
     t0 = time.time()
     p = subprocess.run(cmd, cwd=scratch.repo, env=env, stdout=subprocess.PIPE, stderr=subprocess.STDOUT, text=True,
                        timeout=tmo * 3 + 900)
@@ -299,7 +313,7 @@ def kani_playback_test(scratch: Scratch, cfg: str, h: KHarness, cap: int = 240) 
     tmo = min(h.timeout, cap)
     cmd = ["cargo", "kani", "--lib", "-Z", "stubbing", "-Z", "function-contracts", "-Z", "unstable-options",
            "-Z", "concrete-playback", "--concrete-playback=print", "--harness-timeout", f"{tmo}s",
-           "--harness", h.name]
+           "--harness", h.full, "--exact"]
     try:
         p = subprocess.run(cmd, cwd=scratch.repo, env=env, stdout=subprocess.PIPE, stderr=subprocess.STDOUT, text=True,
                            timeout=tmo + 300)
@@ -324,7 +338,7 @@ def kani_run_playback(scratch: Scratch, cfg: str, test_name: str) -> tuple[int, 
 # Engine V: Verus on mechanically extracted functions
 # ----------------------------------------------------------------------------------------------------
 def run_verus(path: Path, timeout: int = 300, rlimit: int | None = None) -> tuple[dict, str, float]:
-    cmd = ["verus", str(path), "--output-json", "--time", "--multiple-errors", "50"]
+    cmd = ["verus", str(path), "--output-json", "--time", "--multiple-errors", "50", "--triggers-mode", "silent"]
     if rlimit:
         cmd += ["--rlimit", str(rlimit)]
     env = dict(os.environ)
